@@ -202,10 +202,7 @@ theorem TaskOK.transport {P : Program} {depth : Node → Nat} {s s' : St} {tk tk
     exact .main tk' F d0 (by rw [te.name]; exact hn) (by rw [te.frames]; exact hfr) (hdf.transport hL) hdag hdest hout
       (LaunchSt.transport te hst hready)
   | mainDone hn hfr hst hres =>
-    refine .mainDone tk' (by rw [te.name]; exact hn) (by rw [te.frames]; exact hfr) (te.done hst) ?_
-    cases hr : s.res P.g.output with
-    | none => rw [hr] at hres; cases hres
-    | some v => rw [hres' _ v hr]; rfl
+    exact .mainDone tk' (by rw [te.name]; exact hn) (by rw [te.frames]; exact hfr) (te.done hst) (hL _ hres)
   | nodeStart d0 q hn hns hfr hst =>
     refine .nodeStart tk' d0 q (by rw [te.name]; exact hn) hns (by rw [te.frames]; exact hfr) ?_
     rcases te.st with h1 | ⟨w, hw, _, _⟩
@@ -223,8 +220,8 @@ theorem TaskOK.transport {P : Program} {depth : Node → Nat} {s s' : St} {tk tk
       (hproc' q hproc) (hstore d0 q pc hfr hpc1 hpc2 hnores)
   | nodeDone q r0 hn hns hfr hst hnc hev =>
     exact .nodeDone tk' q r0 (by rw [te.name]; exact hn) hns (by rw [te.frames]; exact hfr) (te.done hst) hnc (hev' q hev)
-  | swStart d0 S0 hn hsS hfr hst =>
-    refine .swStart tk' d0 S0 (by rw [te.name]; exact hn) hsS (by rw [te.frames]; exact hfr) ?_
+  | swStart d0 S0 hn hsS hfr hno1 hst =>
+    refine .swStart tk' d0 S0 (by rw [te.name]; exact hn) hsS (by rw [te.frames]; exact hfr) hno1 ?_
     rcases te.st with h1 | ⟨w, hw, _, _⟩
     · rw [h1]; exact hst
     · rw [hst] at hw; cases hw
@@ -909,7 +906,7 @@ theorem Struct.close_same {P : Program} {depth : Node → Nat} {s s1 : St} {t : 
     (hev : s1.evSet = s.evSet) (hproc : s1.proc = s.proc) (hmc : tk'.mustCancel = false)
     (hold : ∀ d n f pc, tkt.frames = [.node d n f pc] → pc.exec = false)
     (hnewf : ∀ d n f pc, tk'.frames = [.node d n f pc] → pc.exec = false)
-    (hnd : ∀ x, tk'.st ≠ .done (.exc x))
+    (hnd : (∀ x, tk'.st ≠ .done (.exc x)) ∨ NoneBlocked s1 (.cond .run))
     (hself : TaskOK P depth (s1.setTask t tk') tk')
     (hstart : ∀ d q, tkt.frames = [.node d q false .start] → s.proc q = true)
     (hown : ∀ S, SwOwner s S → SwOwner (s1.setTask t tk') S ∨
@@ -927,7 +924,9 @@ theorem Struct.close_same {P : Program} {depth : Node → Nat} {s s1 : St} {t : 
     intro d hf
     rw [hproc]; exact hstart d q hf
   · intro he0 hr0
-    exact Or.inl ⟨taskErrors_close_nil e htkt he0 hnd (fun i tk hi h => (hnew i tk hi h).2.2.1), by rw [hres]; exact hr0⟩
+    rcases hnd with hnd | hnd
+    · exact Or.inl ⟨taskErrors_close_nil e htkt he0 hnd (fun i tk hi h => (hnew i tk hi h).2.2.1), by rw [hres]; exact hr0⟩
+    · exact Or.inr hnd
   · intro i tki d m hit hi hrec hb hrd hold'
     have hrd' : ready P s d m = true := by rw [← ready_congr hres hrh hsw]; exact hrd
     obtain ⟨S, hS, hSs, ho⟩ := hold' hrd'
@@ -968,7 +967,7 @@ theorem struct_node_wait {P : Program} {depth : Node → Nat} {s : St} (hs : Str
   · intro d' n f pc hf
     simp only [List.cons.injEq, Frame.node.injEq, and_true] at hf
     rw [← hf.2.2.2]; rfl
-  · intro x hx; cases hx
+  · left; intro x hx; cases hx
   · exact .nodeWait _ d q hnm hns rfl (Or.inr rfl) hpq
   · intro d' q' hf
     rw [hf0] at hf; simp only [List.cons.injEq, Frame.node.injEq, and_true] at hf
@@ -1311,13 +1310,13 @@ theorem struct_node_done {P : Program} {depth : Node → Nat} (hp : LiveP P dept
 def FreshTask (P : Program) (tk : Task) : Prop :=
   tk.mustCancel = false ∧ tk.st = .runnable .go ∧
   ((∃ d q, tk.frames = [.node d q false .start] ∧ tk.name = .node q ∧ P.g.isSwitch q = false) ∨
-   (∃ d S, tk.frames = [.switchStart d S] ∧ tk.name = .node S ∧ P.g.isSwitch S = true))
+   (∃ d S, tk.frames = [.switchStart d S] ∧ tk.name = .node S ∧ P.g.isSwitch S = true ∧ d.isOneof = false))
 
 theorem FreshTask.ok {P : Program} {depth : Node → Nat} {tk : Task} (h : FreshTask P tk) (s' : St) : TaskOK P depth s' tk := by
   obtain ⟨_, hst, hfr⟩ := h
-  rcases hfr with ⟨d, q, h1, h2, h3⟩ | ⟨d, S, h1, h2, h3⟩
+  rcases hfr with ⟨d, q, h1, h2, h3⟩ | ⟨d, S, h1, h2, h3, h4⟩
   · exact .nodeStart tk d q h2 h3 h1 hst
-  · exact .swStart tk d S h2 h3 h1 hst
+  · exact .swStart tk d S h2 h3 h1 h4 hst
 
 theorem FreshTask.notExec {P : Program} {tk : Task} (h : FreshTask P tk) :
     ∀ d n f pc, tk.frames = [.node d n f pc] → pc.exec = false := by
@@ -1380,7 +1379,7 @@ theorem LCtx.close {P : Program} {depth : Node → Nat} {s s1 : St} {t : Nat} {t
       ∀ m, S ∈ basePreds P m → ∀ d0, d0.isRec = false → ready P s d0 m = false) :
     Struct P depth (s1.setTask t tk') := by
   refine Struct.close_same x.hs x.htkt hnm x.hrt (len_ne_one x.hs x.htkt x.nameNe) x.e x.res x.rh x.ph x.sw x.ev x.proc hmc'
-    ?_ ?_ hnd hself ?_ ?_ ?_ ?_
+    ?_ ?_ (Or.inl hnd) hself ?_ ?_ ?_ ?_
   · intro d0 n f pc hf; exact absurd hf (x.notNode d0 n f pc)
   · intro d0 n f pc hf; exact absurd hf (hnewf d0 n f pc)
   · intro d0 q hf; exact absurd hf (x.notNode d0 q false .start)
@@ -1549,7 +1548,7 @@ theorem struct_launch_ret_sw {P : Program} {depth : Node → Nat} {s s1 : St} {t
 /-- the main `_run_dag` returns: the output has a result -/
 theorem struct_launch_ret_main {P : Program} {depth : Node → Nat} {s s1 : St} {t : Nat} {tkt : Task}
     {d : DagRef} {rest : List Node} (x : LCtx P depth s s1 t tkt d [] rest)
-    (hmc : tkt.mustCancel = false) (hout : (s1.res P.g.output).isSome = true) (tk' : Task)
+    (hmc : tkt.mustCancel = false) (hout : Launched P s1 P.g.output) (tk' : Task)
     (hnm : tk'.name = tkt.name) (hmc' : tk'.mustCancel = false) (hfr : tk'.frames = [])
     (hst : tk'.st = .done .ok) : Struct P depth (s1.setTask t tk') := by
   refine x.close hmc tk' hnm hmc' ?_ ?_ ?_ ?_
@@ -1557,7 +1556,7 @@ theorem struct_launch_ret_main {P : Program} {depth : Node → Nat} {s s1 : St} 
     rw [hfr] at hf; simp at hf
   · intro y hy; rw [hst] at hy; cases hy
   · cases x.role with
-    | main hn hdst hout' => exact .mainDone _ (by rw [hnm]; exact hn) hfr hst hout
+    | main hn hdst hout' => exact .mainDone _ (by rw [hnm]; exact hn) hfr hst (x.launched' _ hnm hout)
   · intro d' S hb
     cases hb
 
@@ -1596,7 +1595,7 @@ theorem LCtx.step {P : Program} {depth : Node → Nat} (hp : LiveP P depth) {s s
       refine ⟨rfl, rfl, ?_⟩
       unfold launchFrame
       split
-      · next hS => exact Or.inr ⟨d, n, rfl, rfl, hS⟩
+      · next hS => exact Or.inr ⟨d, n, rfl, rfl, hS, x.dag.notOne⟩
       · next hS =>
         rw [if_neg (by rw [hp.sw.noHead n]; simp)]
         exact Or.inl ⟨d, n, rfl, rfl, by simpa using hS⟩
@@ -1642,7 +1641,10 @@ theorem struct_dagLaunch {P : Program} {depth : Node → Nat} (hp : LiveP P dept
         | main hn hdst hout =>
           rw [retTo_eq_nil c s1 obs _ hself]
           rw [hdd] at hdst; cases hdst
-          exact struct_launch_ret_main x hmc hres _ rfl rfl rfl rfl
+          refine struct_launch_ret_main x hmc ?_ _ rfl rfl rfl rfl
+          unfold Launched
+          rw [if_neg (by rw [hp.outPlain]; simp)]
+          exact Or.inl (by rw [x.proc]; exact x.hs.data.c6 _ (by rw [← x.res]; exact hres))
         | sw d' S hn hS hsub =>
           rw [retTo_eq_cons c s1 obs _ _ _ hself]
           refine struct_launch_ret_sw x hmc ?_ _ rfl hmc rfl ⟨_, rfl⟩
@@ -1702,7 +1704,7 @@ theorem struct_switch_ret {P : Program} {depth : Node → Nat} (hp : LiveP P dep
     (fun i tk hi h => absurd h (fun h' => hnonew i tk hi h'))
   · intro d' n f pc hf; rw [hf0] at hf; simp at hf
   · intro d' n f pc hf; rw [hfr] at hf; simp at hf
-  · intro x hx; rw [hst] at hx; cases hx
+  · left; intro x hx; rw [hst] at hx; cases hx
   · obtain ⟨l, c, h1, h2'⟩ := hok
     refine .swDone tk' S .ok (by rw [hnm']; exact hnm) hS hfr hst (by intro h; cases h) ?_
     intro _
@@ -1734,5 +1736,414 @@ theorem struct_switch_ret {P : Program} {depth : Node → Nat} (hp : LiveP P dep
     obtain ⟨tk0, h0, hn0⟩ := hs.caller
     rw [h0] at htkt; cases htkt
     exact absurd hn0 hnc
+
+/-! ### entering `_run_dag` -/
+
+theorem basePreds_nocase {P : Program} {depth : Node → Nat} (hp : LiveP P depth) {m u : Node} (h : u ∈ basePreds P m) :
+    ∃ e ∈ P.g.edges, e.u = u ∧ e.v = m ∧ e.case = none := by
+  unfold basePreds at h
+  split at h
+  · simp only [List.mem_map, List.mem_filter, Bool.and_eq_true, beq_iff_eq] at h
+    obtain ⟨e, ⟨he, hv, hsw⟩, hu⟩ := h
+    exact ⟨e, he, hu, hv, hp.decNoCase e he hsw⟩
+  · next hS =>
+    simp only [Graph.preds, List.mem_map, List.mem_filter, beq_iff_eq] at h
+    obtain ⟨e, ⟨he, hv⟩, hu⟩ := h
+    exact ⟨e, he, hu, hv, hp.caseSw e he (by rw [hv]; simpa using hS)⟩
+
+/-- an admissible answer of `_get_node_order`: everything else in the DAG is processed, and dependencies come first -/
+theorem LBase.ofValid {P : Program} {depth : Node → Nat} (hp : LiveP P depth) {s s1 : St} {t : Nat} {tkt : Task}
+    {d : DagRef} {below : List Frame} (x : LBase P depth s s1 t tkt d below) {ord : List Node}
+    (hv : validOrder P s1 d ord = true) :
+    LCtx P depth s s1 t tkt d below ord ∧ ∀ q ∈ d.nodes, q ∉ ord → s1.proc q = true := by
+  have hsub := validOrder_sub hv
+  unfold validOrder at hv
+  simp only [Bool.and_eq_true, List.all_eq_true, decide_eq_true_eq] at hv
+  obtain ⟨⟨⟨⟨_, _⟩, hex⟩, hnd⟩, hedges⟩ := hv
+  have hproc : ∀ q ∈ d.nodes, q ∉ ord → s1.proc q = true := by
+    intro q hq hno
+    cases hpe : s1.procExists q with
+    | false =>
+      have : q ∈ expectedOrder P s1 d := by
+        simp only [expectedOrder, List.mem_filter, hq, true_and, hpe]; simp
+      have := hex q this
+      simp only [List.contains_iff_mem] at this
+      exact absurd this hno
+    | true =>
+      simp only [St.procExists, Bool.and_eq_true] at hpe
+      exact hpe.1
+  refine ⟨{ toLBase := x, passed := ?_, sub := hsub, topo := ?_ }, hproc⟩
+  · intro q hq hno
+    have h1 := hproc q hq hno
+    unfold Launched
+    rw [if_neg (by rw [x.hs.data.procPlain q (by rw [← x.proc]; exact h1)]; simp)]
+    exact Or.inl h1
+  · intro pre m post hr u hu hmem
+    obtain ⟨e, he, heu, hev, hcase⟩ := basePreds_nocase hp hu
+    have hmo : m ∈ ord := by rw [hr]; simp
+    have huo : u ∈ ord := by rw [hr]; exact List.mem_append_right _ hmem
+    have := hedges e he
+    rw [if_pos] at this
+    · rw [heu, hev] at this
+      have hnd' := hnd
+      rw [hr, List.nodup_append] at hnd'
+      have hmpre : m ∉ pre := fun h => hnd'.2.2 m h m (by simp) rfl
+      have hlt : posOf ord u < posOf ord m := by simpa using this
+      rw [hr, posOf_append_self pre post m hmpre] at hlt
+      have := posOf_lt_mem pre (m :: post) u hlt
+      exact hnd'.2.2 u this u hmem rfl
+    · simp only [Bool.and_eq_true, List.contains_iff_mem, heu, hev, huo, hmo, true_and, Bool.or_eq_true]
+      right
+      refine ⟨by rw [hcase]; rfl, ?_⟩
+      have := hp.noCands e he
+      rw [hev, heu] at this
+      simpa using this
+
+/-- **entering `_run_dag`** with an admissible launch order preserves the invariant -/
+theorem struct_dagInit {P : Program} {depth : Node → Nat} (hp : LiveP P depth) (c : Ctx) (hcP : c.P = P) {s s1 : St}
+    {tkt : Task} {d : DagRef} {below : List Frame} (hmc : tkt.mustCancel = false)
+    (x : LBase P depth s s1 c.t tkt d below) (obs : List Obs) (hv : validOrder c.P s1 d c.ord = true) :
+    Struct P depth (dagInit c s1 obs d below).1 := by
+  have hv' : validOrder P s1 d c.ord = true := by rw [← hcP]; exact hv
+  obtain ⟨y, hproc⟩ := x.ofValid hp hv'
+  unfold dagInit
+  simp only [hv, noteOrder_true, x.dag.notRec, Bool.false_eq_true, if_false]
+  cases hco : c.ord with
+  | nil =>
+    simp only []
+    rw [hco] at y hproc
+    have hself := y.self1
+    cases hr : x.role with
+    | main hn hdst hout =>
+      rw [retTo_eq_nil c s1 _ _ hself]
+      exact struct_launch_ret_main y hmc (y.passed _ hout (by simp)) _ rfl rfl rfl rfl
+    | sw d' S hn hS hsub =>
+      rw [retTo_eq_cons c s1 _ _ _ _ hself]
+      refine struct_launch_ret_sw y hmc ?_ _ rfl hmc rfl ⟨_, rfl⟩
+      intro l c1 hsw
+      obtain ⟨l', c2, hsw', _, hc2, _⟩ := hsub.sel
+      have hcc : c1 = c2 := by rw [hsw] at hsw'; cases hsw'; rfl
+      rw [hcc]
+      exact hproc c2 hc2 (by simp)
+  | cons n rest =>
+    simp only []
+    rw [hco] at y
+    exact struct_dagLaunch hp c hcP hmc _ _ _ y
+
+/-! ### entering `_run_switch` -/
+
+/-- a consumer of a switch that has not recorded its decision is not ready -/
+theorem ready_false_of_unset {P : Program} (hsw : SwP P) {s : St} (hd : LData P s) {S m : Node} (hm : S ∈ basePreds P m)
+    (hS : P.g.isSwitch S = true) (hno : s.sw S = none) (d : DagRef) (hrec : d.isRec = false) : ready P s d m = false := by
+  unfold ready
+  rw [predsFor_eq hsw s d hrec m, List.all_eq_false]
+  refine ⟨S, List.mem_map.mpr ⟨S, hm, by simp [resolveSw, hS, hno]⟩, ?_⟩
+  have : s.res S = none := by
+    cases hr : s.res S with
+    | none => rfl
+    | some v =>
+      have := hd.procPlain S (hd.c6 S (by rw [hr]; rfl))
+      rw [hS] at this; cases this
+  simp [St.exists, this]
+
+/-- `_run_switch` finds no case for the label it got: the task fails — `run()` has been notified -/
+theorem struct_switch_nocase {P : Program} {depth : Node → Nat} (hp : LiveP P depth) {s : St} (hs : Struct P depth s)
+    {t : Nat} {tkt : Task} (htkt : s.tasks[t]? = some tkt) {d : DagRef} {S : Node} (hnm : tkt.name = .node S)
+    (hS : P.g.isSwitch S = true) (hf0 : tkt.frames = [.switchStart d S]) (hrt : ∃ rv, tkt.st = .runnable rv)
+    (hnone : switchSelect P s S = none) (x : Exc) (tk' : Task) (hnm' : tk'.name = tkt.name)
+    (hmc' : tk'.mustCancel = false) (hfr : tk'.frames = []) (hst : tk'.st = .done (.exc x)) :
+    Struct P depth ((notify s .run).setTask t tk') := by
+  have hnc : tkt.name ≠ .caller := by rw [hnm]; intro h; cases h
+  have hrt0 : ∀ tk0, s.tasks[t]? = some tk0 → ∃ rv, tk0.st = .runnable rv := by
+    intro tk0 h; rw [htkt] at h; cases h; exact hrt
+  have e : Ext t s (notify s .run) := Ext.notify _ hrt0
+  have hnonew : ∀ (i : Nat) (tk : Task), s.tasks.length ≤ i → (notify s .run).tasks[i]? = some tk → False := by
+    intro i tk hi h
+    have := getElem?_lt h
+    rw [len_notify] at this
+    omega
+  have hnosw : s.sw S = none := by
+    cases h : s.sw S with
+    | none => rfl
+    | some lc => have := hs.data.swSel S lc h; rw [hnone] at this; cases this
+  refine Struct.close_same hs htkt hnm' hrt (len_ne_one hs htkt hnc) e rfl rfl rfl rfl rfl rfl hmc' ?_ ?_
+    (Or.inr (notify_noneBlocked s .run)) ?_ ?_ ?_ ?_ (fun i tk hi h => absurd h (fun h' => hnonew i tk hi h'))
+  · intro d' n f pc hf; rw [hf0] at hf; simp at hf
+  · intro d' n f pc hf; rw [hfr] at hf; simp at hf
+  · refine .swDone tk' S (.exc x) (by rw [hnm']; exact hnm) hS hfr hst (by intro h; cases h) ?_
+    intro h; cases h
+  · intro d' q hf; rw [hf0] at hf; simp at hf
+  · intro S' ho
+    obtain ⟨i, tk, hi, hnd', hfr'⟩ := ho
+    by_cases hit : i = t
+    · subst hit
+      rw [htkt] at hi; cases hi
+      have hSS : S' = S := by
+        rcases hfr' with ⟨d1, h'⟩ | ⟨d1, h'⟩ | ⟨d1, s1', h'⟩ | ⟨d1, s1', r1, h'⟩ <;> rw [hf0] at h' <;> simp at h'
+        exact h'.2.symm
+      subst hSS
+      right
+      intro m hm
+      left
+      intro d0 hd0
+      exact ready_false_of_unset hp.sw hs.data hm hS hnosw d0 hd0
+    · obtain ⟨tk1, h1, te⟩ := e.old i tk hi hit
+      exact Or.inl ⟨i, tk1, by rw [getElem?_close (e.lt htkt), if_neg hit]; exact h1, te.nonDone hnd',
+        by rw [te.frames]; exact hfr'⟩
+  · intro ht0
+    subst ht0
+    obtain ⟨tk0, h0, hn0⟩ := hs.caller
+    rw [h0] at htkt; cases htkt
+    exact absurd hn0 hnc
+
+theorem switchSelect_edge {P : Program} {s : St} {S : Node} {l : Label} {cn : Node} (h : switchSelect P s S = some (l, cn)) :
+    ∃ e ∈ P.g.edges, e.u = cn ∧ e.v = S ∧ e.case = some l := by
+  unfold switchSelect at h
+  split at h
+  · have := List.mem_of_getLast? h
+    simp only [switchCases, List.mem_filter, List.mem_filterMap, beq_iff_eq] at this
+    obtain ⟨⟨e, ⟨he, hv⟩, h2⟩, _⟩ := this
+    split at h2
+    · cases h2
+    · cases hc : e.case with
+      | none => rw [hc] at h2; cases h2
+      | some l' =>
+        rw [hc] at h2
+        simp only [Option.map_some, Option.some.injEq, Prod.mk.injEq] at h2
+        exact ⟨e, he, h2.2, hv, by rw [hc, h2.1]⟩
+  · cases h
+
+theorem setTask_self {s : St} {t : Nat} {tk : Task} (h : s.tasks[t]? = some tk) : s.setTask t tk = s := by
+  obtain ⟨hlt, heq⟩ := List.getElem?_eq_some_iff.mp h
+  unfold St.setTask
+  have : s.tasks.set t tk = s.tasks := by rw [← heq]; exact List.set_getElem_self hlt
+  rw [this]
+
+/-- the readiness of a node that does not consume switch `S` does not depend on the decision of `S` -/
+theorem ready_setSw_other {P : Program} (hsw : SwP P) (s : St) (S : Node) (lc : Label × Node) (d : DagRef)
+    (hrec : d.isRec = false) (m : Node) (hm : S ∉ basePreds P m) : ready P (s.setSw S lc) d m = ready P s d m := by
+  unfold ready
+  rw [predsFor_eq hsw _ d hrec m, predsFor_eq hsw s d hrec m]
+  have : (basePreds P m).map (resolveSw P (s.setSw S lc)) = (basePreds P m).map (resolveSw P s) := by
+    apply List.map_congr_left
+    intro p hp
+    have hpS : p ≠ S := fun h => hm (h ▸ hp)
+    have : (s.setSw S lc).sw p = s.sw p := by simp only [St.setSw, upd]; rw [if_neg hpS]
+    simp only [resolveSw, this]
+  rw [this]
+  rfl
+/-- `_run_switch` records its decision (the first half of the section; the task is still about to build its sub-DAG) -/
+theorem struct_setSw {P : Program} {depth : Node → Nat} (hp : LiveP P depth) {s : St} (hs : Struct P depth s)
+    {t : Nat} {tkt : Task} (htkt : s.tasks[t]? = some tkt) {d : DagRef} {S : Node} (hnm : tkt.name = .node S)
+    (hS : P.g.isSwitch S = true) (hf0 : tkt.frames = [.switchStart d S]) (hno : d.isOneof = false)
+    (hst : tkt.st = .runnable .go) {l : Label} {cn : Node} (hsel : switchSelect P s S = some (l, cn)) : Struct P depth (s.setSw S (l, cn)) := by
+  have hd := hs.data
+  have hnc : tkt.name ≠ .caller := by rw [hnm]; intro h; cases h
+  have hold : ∀ lc', s.sw S = some lc' → lc' = (l, cn) := by
+    intro lc' h
+    have := hd.swSel S lc' h
+    rw [hsel] at this; cases this; rfl
+  have e : Ext t s (s.setSw S (l, cn)) := Ext.setSw s S (l, cn) hold
+  have hnonew : ∀ (i : Nat) (tk : Task), s.tasks.length ≤ i → (s.setSw S (l, cn)).tasks[i]? = some tk → False := by
+    intro i tk hi h
+    have := getElem?_lt h
+    simp only [St.setSw] at this
+    omega
+  have hmc : tkt.mustCancel = false := hd.noCancel tkt (List.mem_of_getElem? htkt)
+  have htkt' : (s.setSw S (l, cn)).tasks[t]? = some tkt := htkt
+  rw [← setTask_self htkt']
+  obtain ⟨e0, he0, heu, hev, hcase⟩ := switchSelect_edge hsel
+  refine Struct.close hs ⟨tkt, htkt, rfl⟩ e (len_ne_one hs htkt hnc) ?_ ?_ ?_ ?_ ?_ ?_ ?_ ?_
+  · refine ⟨hd.noHid, hd.noRec, ?_, ?_, hd.c5, ?_, ?_, hd.c6, hd.procPlain, ?_, ?_⟩
+    · intro n hn
+      rcases hd.c1 n hn with h | h
+      · exact Or.inl h
+      · refine Or.inr (h.close e htkt ?_)
+        intro d' f' pc hf' _
+        rw [hf0] at hf'; simp at hf'
+    · intro n hn
+      rcases hd.c4 n hn with h | h
+      · exact Or.inl h
+      · exact Or.inr (taskErrors_close_mono e htkt ⟨_, hst⟩ h)
+    · intro S' l' c' h
+      simp only [St.setTask, St.setSw, upd] at h
+      split at h
+      · next hSS =>
+        cases h
+        subst hSS
+        exact ⟨hp.casePlain e0 he0 (by rw [hcase]; rfl) ▸ (by rw [heu]), e0, he0, heu, hev⟩
+      · exact hd.swEdge S' l' c' h
+    · intro S' lc' h
+      rw [show switchSelect P (St.setTask (s.setSw S (l, cn)) t tkt) S' = switchSelect P s S' from rfl]
+      simp only [St.setTask, St.setSw, upd] at h
+      split at h
+      · next hSS => cases h; subst hSS; exact hsel
+      · exact hd.swSel S' lc' h
+    · refine uniq_close e hd htkt ?_ (fun i tk hi h => absurd h (fun h' => hnonew i tk hi h'))
+      intro d1 q1 f1' pc1 hfr
+      rw [hf0] at hfr; simp at hfr
+    · exact noCancel_close e htkt hd.noCancel hmc (fun i tk hi h => absurd h (fun h' => hnonew i tk hi h'))
+  · exact .swStart tkt d S hnm hS hf0 hno hst
+  · intro q hl
+    refine Launched.close e htkt rfl hl ?_
+    intro d' hf'
+    rw [hf0] at hf'; simp at hf'
+  · intro he0' hr0
+    refine Or.inl ⟨taskErrors_close_nil e htkt he0' ?_ (fun i tk hi h => absurd h (fun h' => hnonew i tk hi h')), hr0⟩
+    intro x hx; rw [hst] at hx; cases hx
+  · intro i tki d' m hit hi hrec hb hrd hold'
+    by_cases hrd' : ready P s d' m = true
+    · obtain ⟨S', hS', hSs, ho⟩ := hold' hrd'
+      refine ⟨S', hS', hSs, ho.close e htkt ?_⟩
+      intro hfr
+      -- this task stays the owner of its switch
+      refine ⟨t, tkt, by rw [getElem?_close (e.lt htkt), if_pos rfl], ?_, hfr⟩
+      intro r hr; rw [hst] at hr; cases hr
+    · -- `m` has become ready through the decision: it consumes `S`, whose task is this one
+      have hm : S ∈ basePreds P m := by
+        apply Classical.byContradiction
+        intro hn
+        rw [ready_setSw_other hp.sw s S (l, cn) d' hrec m hn] at hrd
+        exact hrd' hrd
+      refine ⟨S, hm, hS, t, tkt, by rw [getElem?_close (e.lt htkt), if_pos rfl], ?_, Or.inl ⟨d, hf0⟩⟩
+      intro r hr; rw [hst] at hr; cases hr
+  · intro i tk d' q' pc hit hi hf hp1 hp2 hn
+    exact hn
+  · intro ht0
+    subst ht0
+    obtain ⟨tk0, h0, hn0⟩ := hs.caller
+    rw [h0] at htkt; cases htkt
+    exact absurd hn0 hnc
+  · intro i tk hi h
+    exact absurd h (fun h' => hnonew i tk hi h')
+
+/-! ### the launch-order oracle -/
+
+
+theorem obs_endTask (c : Ctx) (s : St) (obs : List Obs) (r : TaskRes) : ∀ o ∈ obs, o ∈ (endTask c s obs r).2 := by
+  intro o ho; unfold endTask; split
+  · exact ho
+  · exact List.mem_append_left _ ho
+
+theorem obs_block (c : Ctx) (s : St) (obs : List Obs) (fs : List Frame) (w : Wait) : ∀ o ∈ obs, o ∈ (block c s obs fs w).2 := by
+  intro o ho; unfold block; split <;> exact ho
+
+theorem obs_retTo (c : Ctx) (s : St) (obs : List Obs) (below : List Frame) (v : Val) : ∀ o ∈ obs, o ∈ (retTo c s obs below v).2 := by
+  intro o ho; unfold retTo; split
+  · exact obs_endTask c s obs .ok o ho
+  · split <;> exact ho
+
+theorem obs_dagWaitDest (c : Ctx) (s : St) (obs : List Obs) (d : DagRef) (below : List Frame) :
+    ∀ o ∈ obs, o ∈ (dagWaitDest c s obs d below).2 := by
+  intro o ho; unfold dagWaitDest; split
+  · split
+    · exact obs_retTo _ _ _ _ _ o ho
+    · exact obs_block _ _ _ _ _ o ho
+  · exact obs_block _ _ _ _ _ o ho
+
+theorem obs_dagLaunch (c : Ctx) (d : DagRef) (below : List Frame) : ∀ (rest : List Node) (s : St) (obs : List Obs),
+    ∀ o ∈ obs, o ∈ (dagLaunch c d below s obs rest).2 := by
+  intro rest
+  induction rest with
+  | nil => intro s obs o ho; simp only [dagLaunch]; exact obs_dagWaitDest _ _ _ _ _ o ho
+  | cons n rest ih =>
+    intro s obs o ho
+    simp only [dagLaunch]
+    split
+    · split
+      · exact obs_retTo _ _ _ _ _ o ho
+      · exact ih _ _ o (List.mem_append_left _ ho)
+    · exact obs_block _ _ _ _ _ o ho
+
+/-- a section that enters `_run_dag` and reports no inadmissible launch order got an admissible one -/
+theorem valid_of_dagInit (c : Ctx) (s : St) (obs : List Obs) (d : DagRef) (below : List Frame)
+    (h : Obs.badOracle ∉ (dagInit c s obs d below).2) : validOrder c.P s d c.ord = true := by
+  cases hv : validOrder c.P s d c.ord with
+  | true => rfl
+  | false =>
+    exfalso
+    apply h
+    unfold dagInit
+    simp only [hv, Bool.false_eq_true, if_false]
+    split
+    · exact obs_retTo _ _ _ _ _ _ (by simp)
+    · exact obs_dagLaunch _ _ _ _ _ _ _ (by simp)
+
+
+theorem reducedRef_flags {P : Program} {s : St} {src dst : Node} {d : DagRef}
+    (h : reducedRef P s src dst false false false = some d) : d.isRec = false ∧ d.isOneof = false := by
+  unfold reducedRef at h
+  simp only [] at h
+  split at h
+  · cases h; exact ⟨rfl, rfl⟩
+  · split at h
+    · cases h
+    · cases h; exact ⟨rfl, rfl⟩
+
+/-- **`_run_switch` starts**: it records the decision and enters the `_run_dag` of the selected case, or fails because no
+case matches the label -/
+theorem struct_switchStart {P : Program} {depth : Node → Nat} (hp : LiveP P depth) (c : Ctx) (hcP : c.P = P) {s : St}
+    (hs : Struct P depth s) {tkt : Task} (htkt : s.tasks[c.t]? = some tkt) {d : DagRef} {S : Node}
+    (hnm : tkt.name = .node S) (hS : P.g.isSwitch S = true) (hf0 : tkt.frames = [.switchStart d S])
+    (hno : d.isOneof = false) (hst : tkt.st = .runnable .go) (obs : List Obs)
+    (hv : Obs.badOracle ∉ (switchStart c s obs d S []).2) : Struct P depth (switchStart c s obs d S []).1 := by
+  have hmc : tkt.mustCancel = false := hs.data.noCancel tkt (List.mem_of_getElem? htkt)
+  unfold switchStart at hv ⊢
+  rw [hcP] at hv ⊢
+  cases hsel : switchSelect P s S with
+  | none =>
+    simp only [hsel] at hv ⊢
+    unfold raiseOut
+    simp only [unwindFrames]
+    have hself : (notify s .run).tasks[c.t]? = some tkt := by
+      rw [(Ext.notify (t := c.t) .run (fun tk0 h => by rw [htkt] at h; cases h; exact ⟨_, hst⟩)).self]; exact htkt
+    rw [endTask_eq c _ obs _ hself]
+    exact struct_switch_nocase hp hs htkt hnm hS hf0 ⟨_, hst⟩ hsel _ _ rfl rfl rfl rfl
+  | some lc =>
+    obtain ⟨l, cn⟩ := lc
+    simp only [hsel, openCand, hno, Bool.false_eq_true, if_false] at hv ⊢
+    have hs2 := struct_setSw hp hs htkt hnm hS hf0 hno hst hsel
+    obtain ⟨e0, he0, heu, hev, hcase⟩ := switchSelect_edge hsel
+    obtain ⟨sub, hsub, hdst, hcn, hclosed, hdepth⟩ :=
+      hp.dagsOK (s.setSw S (l, cn)) cn (Or.inr ⟨e0, he0, heu, by rw [hcase]; rfl⟩)
+    obtain ⟨hf1, hf2⟩ := reducedRef_flags hsub
+    simp only [hsub] at hv ⊢
+    have hdag : DagOK P sub := ⟨hf1, hf2, hclosed⟩
+    have x : LBase P depth (s.setSw S (l, cn)) (s.setSw S (l, cn)) c.t tkt sub [.switchRet d S] :=
+      { hs := hs2, htkt := htkt, hrt := ⟨_, hst⟩,
+        role := .sw d S hnm hS ⟨hdag, l, cn, by simp [St.setSw], hdst, hcn, hdepth⟩,
+        dag := hdag,
+        notNode := by intro d0 n f pc h; rw [hf0] at h; simp at h,
+        oldSw := by
+          intro d' S' hb
+          simp only [List.cons.injEq, Frame.switchRet.injEq, and_true] at hb
+          exact Or.inl ⟨d, by rw [hf0, hb.2]⟩
+        oldMain := by intro h; cases h
+        e := Ext.refl _ _, res := rfl, rh := rfl, ph := rfl, sw := rfl, ev := rfl, proc := rfl,
+        fresh := by
+          intro i tk hi h
+          have := getElem?_lt h
+          omega }
+    exact struct_dagInit hp c hcP hmc x obs (valid_of_dagInit c _ obs sub _ hv)
+
+/-- **the main `_run_dag` starts** -/
+theorem struct_main_dagInit {P : Program} {depth : Node → Nat} (hp : LiveP P depth) (c : Ctx) (hcP : c.P = P) {s : St}
+    (hs : Struct P depth s) {tkt : Task} (htkt : s.tasks[c.t]? = some tkt) {d : DagRef} (hnm : tkt.name = .run)
+    (hf0 : tkt.frames = [.dagInit d]) (hrt : ∃ rv, tkt.st = .runnable rv) (hdag : DagOK P d)
+    (hdst : d.dest = some P.g.output) (hout : P.g.output ∈ d.nodes) (obs : List Obs)
+    (hv : Obs.badOracle ∉ (dagInit c s obs d []).2) : Struct P depth (dagInit c s obs d []).1 := by
+  have hmc : tkt.mustCancel = false := hs.data.noCancel tkt (List.mem_of_getElem? htkt)
+  have x : LBase P depth s s c.t tkt d [] :=
+    { hs := hs, htkt := htkt, hrt := hrt, role := .main hnm hdst hout, dag := hdag,
+      notNode := by intro d0 n f pc h; rw [hf0] at h; simp at h,
+      oldSw := by intro d' S' hb; cases hb
+      oldMain := fun _ => Or.inl ⟨d, hf0⟩
+      e := Ext.refl _ _, res := rfl, rh := rfl, ph := rfl, sw := rfl, ev := rfl, proc := rfl,
+      fresh := by
+        intro i tk hi h
+        have := getElem?_lt h
+        omega }
+  exact struct_dagInit hp c hcP hmc x obs (valid_of_dagInit c _ obs d _ hv)
+
 
 end MLPE.Eng
